@@ -9,6 +9,11 @@ CLAIMED = {}
 def claim(pid, cat, technique, text, note):
     CLAIMED[pid] = (cat, technique, text, note)
 
+def also(pid, text):
+    """phases added to a check after the first version (seeded-change rounds, coverage review): appended to its level text"""
+    cat, technique, t, note = CLAIMED[pid]
+    CLAIMED[pid] = (cat, technique, t + " Added later: " + text, note)
+
 exec(open(os.path.join(V, "tools", "claims.py")).read())
 
 checks, na = [], []
